@@ -507,6 +507,11 @@ def State.rmDataH (s : State) (sh dh : Nat) (strict : Bool) : Option State :=
           let m' := { m with data := setAt m.data dh none }
           some { s2 with sets := setAt s2.sets sh (some m'), edges := es }
 
+/-- `Request::to_handle` for data: an id goes through the id map, a handle is taken as is -/
+def SetM.dataHandleOf (m : SetM) : Ref → Option Nat
+  | .id i => m.resolveData (.id i)
+  | .h n => some n
+
 def State.rmData (s : State) (set : String) (d : Ref) (strict : Bool) : Resp × State :=
   match s.resolveSet set with
   | none => (.ok "-", s)
@@ -514,10 +519,7 @@ def State.rmData (s : State) (set : String) (d : Ref) (strict : Bool) : Resp × 
     match getLive s.sets sh with
     | none => (.err, s)
     | some m =>
-      let dh : Option Nat := match d with
-        | .id i => m.resolveData (.id i)
-        | .h n => some n
-      match dh with
+      match m.dataHandleOf d with
       | none => (.ok "-", s)
       | some dh =>
         match s.rmDataH sh dh strict with
